@@ -355,7 +355,7 @@ func c01Extra(r *core.Run) {
 					if !c01IsBreakerType(rs.At(i).Type()) {
 						continue
 					}
-					gxLeavesWithEdges(core.Result(ret, i), func(leaf ssa.Value, edge *core.Edge) {
+					c01LeavesWithEdges(core.Result(ret, i), func(leaf ssa.Value, edge *core.Edge) {
 						n++
 						leaf = c01Norm(leaf)
 						if l := c01LookupOf(leaf); l != nil && all[l] {
